@@ -457,6 +457,7 @@ func init() {
 			for _, k := range []string{"sellpool", "buypool", "sellallpool", "addorder", "remorder", "sell", "buy", "sellall", "addliq", "remliq"} {
 				p.W[k] = 10
 			}
+			p.W["dustorder"], p.W["remdust"], p.W["fillorder"] = 10, 8, 6
 			sc := baseScenario("C06", r, seed, chain, tier, p, func(g *GenCfg, n *NodeCfg) {
 				g.NPool = 2 + r.Intn(4)
 				g.NCoin = 1 + r.Intn(3)
